@@ -10,7 +10,7 @@ DESIGN_REF = "DESIGN.md §9 C02, §12.C02"
 COQ_TARGETS = ["Properties/C02", "Pins/C02"]
 THEOREMS = [("PdfV.Properties.C02", n) for n in
             ["C02_merge_latest", "C02_beyond_size", "C02_stream_roundtrip", "C02_stream_sections_roundtrip",
-             "C02_table_roundtrip", "C02_walk_latest", "C02_stream_no_panic", "C02_stream_bounded",
+             "C02_walk_latest", "C02_stream_no_panic", "C02_stream_bounded",
              "C02_merge_older_stream_refuted_before_fix"]]
 ANCHORS = ["backend.rs", "xref.rs", "parse_xref.rs", "lexer/mod.rs"]
 MODES = ["xr_merge", "xr_stream", "xr_table", "xr_locate", "xr_walk"]
@@ -70,44 +70,12 @@ def walk_case(H, info, data, tags, opts=b"s"):
 
 
 def all_check(H, info):
-    vals, size = X.expected_values(H, info)
-    last = len(H.revisions) - 1
-    scan = X.expected_scan(H, info)
+    inner, size = X.observation_check(H, info)
 
     def chk(r):
         if r[0] != "OK":
             return "the file must load: %s %s" % (r[0], r[1][:100])
-        out = r[1]
-        if len(out) < size + 2:
-            return "short output"
-        for n in range(size):
-            if vals[n] is None:
-                if out[n].startswith(b"!"):
-                    return "object %d (auxiliary stream) does not resolve: %s" % (n, out[n][:40])
-            elif vals[n] in (b"!FreeObject", b"!NullRef"):
-                if not out[n].startswith(b"!") or out[n] not in (b"!FreeObject", b"!NullRef", b"!UnspecifiedXRefEntry"):
-                    return "object %d must be reported free/missing, got %s" % (n, out[n][:60])
-            elif out[n] != vals[n]:
-                return "object %d: expected %s got %s" % (n, vals[n][:80], out[n][:80])
-        tr = out[size]
-        if (b"VpRev".hex().encode() + b":i%d" % last) not in tr:
-            return "the trailer is not that of the newest section: %s" % tr[:200]
-        if out[size + 1] != b"scan":
-            return "protocol"
-        items = out[size + 2:]
-        if len(items) != len(scan):
-            return "scan lists %d items, the file has %d before the newest xref section" % (len(items), len(scan))
-        for it, ex in zip(items, scan):
-            if ex == ("T",):
-                if not it.startswith(b"T "):
-                    return "scan: expected a trailer item, got %s" % it[:40]
-            else:
-                head = b"O%d,%d " % (ex[0], ex[1])
-                if not it.startswith(head):
-                    return "scan: expected object %d %d, got %s" % (ex[0], ex[1], it[:40])
-                if ex[2] is not None and it[len(head):] != ex[2]:
-                    return "scan: object %d has value %s, expected %s" % (ex[0], it[len(head):][:60], ex[2][:60])
-        return None
+        return inner(r[1])
     return chk, size
 
 
@@ -337,10 +305,7 @@ def classify(case, impl, model):
 
 
 def witness_case(f, c):
-    if f["id"] == "C02-a":
-        c.expect = ok(b"I nX,0".replace(b"X", b"0") if False else bytes.fromhex(f["expect_hex"][0]))
-        c.model = True
-    elif "expect_hex" in f:
+    if "expect_hex" in f:
         c.expect = ok(*[bytes.fromhex(x) for x in f["expect_hex"]])
     elif f.get("expect") == "err":
         c.expect = err()
